@@ -51,7 +51,15 @@ def lin(*terms):
     return acc
 
 
+class NeedWorld(Exception):
+    """a data-dependent precision switch (comparison of a symbolic quantity with Constants::eps) was met"""
+    def __init__(self, key):
+        self.key = key
+
+
 class PolySym(S.Sym):
+    switch_world = None      # {line of the switch: arm taken}; None = such switches are not expected (Unsupported)
+
     def extra_call(self, n, env, k, fn, obj, args, name, cls, dim):
         # ---- Eigen::Quaternion summaries -------------------------------------------------
         if cls.startswith("Eigen::Quaternion") or cls.startswith("Eigen::QuaternionBase") or cls.startswith("Eigen::RotationBase"):
@@ -133,6 +141,19 @@ class PolySym(S.Sym):
         return S.Sym.neg(self, v)
 
     def stmt(self, n, env):
+        if self.switch_world is not None and isinstance(n, dict) and n.get("k") == "IfStmt":
+            t = sexp(n.get("cond"))
+            if "::eps" in t and "abs" not in t:
+                c = None
+                try:
+                    c = self.ev(n.get("cond"), env)
+                except S.Unsupported:
+                    pass
+                if c is not True and c is not False:
+                    key = n.get("ln")
+                    if key not in self.switch_world:
+                        raise NeedWorld(key)
+                    return S.Sym.stmt(self, n.get("then") if self.switch_world[key] else n.get("else"), env)
         # "valid operands" world: `if (abs(sqnorm - 1) > eps) { renormalise }` is not taken
         if isinstance(n, dict) and n.get("k") == "IfStmt" and n.get("else") is None:
             t = sexp(n.get("cond"))
